@@ -76,6 +76,8 @@ type c10Cmd struct {
 	paren  bool
 }
 
+var c10ForceKeyword = ""
+
 func c10Case(cmdKinds [][]string, withConst bool, special string) *Case {
 	atoms := &AtomTable{Coded: true}
 	sname := atoms.New(ClsIdent, "script", "names")
@@ -104,7 +106,11 @@ func c10Case(cmdKinds [][]string, withConst bool, special string) *Case {
 				case "N":
 					c.toks = append(c.toks, A(atoms.New(ClsNum, "arg", "")))
 				case "K":
-					c.toks = append(c.toks, L(kws[(ci+ti)%len(kws)]))
+					if c10ForceKeyword != "" {
+						c.toks = append(c.toks, L(c10ForceKeyword))
+					} else {
+						c.toks = append(c.toks, L(kws[(ci+ti)%len(kws)]))
+					}
 				case "O":
 					c.toks = append(c.toks, L(ops[(ci+ti)%len(ops)]))
 				default:
@@ -138,7 +144,7 @@ func c10Case(cmdKinds [][]string, withConst bool, special string) *Case {
 	tops = append(tops, &Script{Name: sname, Body: body})
 	prog := &Program{Atoms: atoms, Tops: tops}
 	shape := c10Shape{Cmds: names, Const: withConst}
-	cs := &Case{Name: fmt.Sprintf("c10/%v/const=%v/%s", names, withConst, special), Prog: prog, Variants: optVariants, NonTrivial: true, Shape: shape, MaxPaths: 256}
+	cs := &Case{Name: fmt.Sprintf("c10/%v/const=%v/%s/kw=%s", names, withConst, special, c10ForceKeyword), Prog: prog, Variants: optVariants, NonTrivial: true, Shape: shape, MaxPaths: 256}
 	cs.Oracle = func(x *OracleCtx) *Violation {
 		subst := func(t Tok) interp.Value {
 			if constName == nil || t.A == nil || t.A.Class != ClsIdent {
@@ -217,6 +223,22 @@ func RunC10(env *Env, rep *Report) {
 	for _, l := range lists {
 		cases = append(cases, c10Case([][]string{l}, false, ""))
 	}
+	// every keyword in every position of the lists of up to 3 tokens
+	for _, kw := range []string{"global", "local", "TRUE", "value", "var", "flag", "if", "default"} {
+		c10ForceKeyword = kw
+		for _, l := range enumTokenLists(3) {
+			hasK := false
+			for _, k := range l {
+				if k == "K" {
+					hasK = true
+				}
+			}
+			if hasK {
+				cases = append(cases, c10Case([][]string{l}, false, ""), c10Case([][]string{l, {"I"}}, false, ""))
+			}
+		}
+	}
+	c10ForceKeyword = ""
 	// constants: every list of up to 3 tokens that contains an identifier
 	for _, l := range enumTokenLists(3) {
 		hasI := false
@@ -241,7 +263,7 @@ func RunC10(env *Env, rep *Report) {
 		}
 		cases = append(cases, c10Case([][]string{a, a}, true, ""))
 	}
-	cases = append(cases, c10PoryswitchCase(true), c10PoryswitchCase(false))
+	cases = append(cases, c10PoryswitchCase(true), c10PoryswitchCase(false), c10SwitchBodyCase())
 	rep.Technique = "symbolic execution of the real command parser and renderer (go/ssa) with symbolic token literals; rope equalities between output lines and the token-wise reference, aliasing with constant names decided by the solver (z3)"
 	rep.Explanation = "Bounded symbolic verification, not a proof. Every argument token list up to the length bound over {identifier, number, keyword, operator, '(', ')', ','} with balanced parentheses and non-empty arguments (plus the no-parenthesis form, empty parentheses, several commands in a row and the label look-alikes) is compiled by symbolic execution of the real code with all identifier and number tokens symbolic. Each output line must equal, as a rope and hence for every name and number, the reference rendering: tab, the unchanged command name, the argument tokens in order joined by single spaces with ', ' at every comma; lines in source order. With a constant defined, whether an identifier token equals the constant's name is a solver-decided fork (every aliasing pattern is explored) and the reference substitutes the constant's value exactly there."
 	rep.Bounds = map[string]interface{}{"max_tokens_per_argument_list": maxTok, "token_lists": len(lists), "cases": len(cases), "const_aliasing": "lists of up to 3 tokens with one constant definition", "commands_in_a_row": "up to 3, lists of up to 2 tokens"}
@@ -303,6 +325,53 @@ func c10PoryswitchCase(fallback bool) *Case {
 			want = []interp.Value{cat(sname.Val, "::"), cat("\t", c1.Val, " ", lbl("_Text_0"), ", ", arg.Val), "\treturn", cat(lbl("_Text_0"), ":"), "\t.string \"named$\""}
 		}
 		return expectLines(x, "verbatim", "output", nonBlank(outputLines(res.Out, false)), want)
+	}
+	return cs
+}
+
+// c10SwitchBodyCase: commands with inline text and moves() in a case body
+// and in the default body of a switch keep their (label) arguments.
+func c10SwitchBodyCase() *Case {
+	atoms := &AtomTable{Coded: true}
+	sname := atoms.New(ClsUserName, "script", "names")
+	v := atoms.New(ClsIdent, "var", "")
+	c1, c2, c3 := atoms.New(ClsPlainCmd, "cmd", "cmds"), atoms.New(ClsPlainCmd, "cmd", "cmds"), atoms.New(ClsPlainCmd, "cmd", "cmds")
+	arg := atoms.New(ClsIdent, "arg", "")
+	src := fmt.Sprintf("script %s {\n  switch (var(%s)) {\n    case 1:\n      %s(\"in case$\", %s)\n    default:\n      %s(%s, \"in default$\")\n      %s(moves(walk_up))\n  }\n}",
+		sname.Placeholder(), v.Placeholder(), c1.Placeholder(), arg.Placeholder(), c2.Placeholder(), arg.Placeholder(), c3.Placeholder())
+	prog := &Program{Atoms: atoms, Tops: []interface{}{&TopRaw{Text: src}}}
+	cs := &Case{Name: "c10/switch-bodies", Prog: prog, Variants: optVariants, NonTrivial: true, Shape: c10Shape{Cmds: []string{"switch"}}, MaxPaths: 64}
+	cs.Oracle = func(x *OracleCtx) *Violation {
+		lbl := func(suffix string) interp.Value { return cat(sname.Val, suffix) }
+		wantCmds := []interp.Value{
+			cat("\t", c1.Val, " ", lbl("_Text_0"), ", ", arg.Val),
+			cat("\t", c2.Val, " ", arg.Val, ", ", lbl("_Text_1")),
+			cat("\t", c3.Val, " ", lbl("_Movement_0")),
+		}
+		for _, vr := range x.Case.Variants {
+			res := x.Res[vr.Name]
+			if res.Err.IsErr || res.Err.Panic != "" {
+				return &Violation{Sub: "verbatim", Msg: "rejected: " + interp.ToString(res.Err.Msg) + res.Err.Panic}
+			}
+			lines := outputLines(res.Out, false)
+			for _, w := range wantCmds {
+				n := 0
+				for _, l := range lines {
+					if sameValue(x.C, l, w) == 1 {
+						n++
+					}
+				}
+				if n != 1 {
+					return &Violation{Sub: "verbatim", Msg: fmt.Sprintf("variant %s: expected exactly one line %s, found %d", vr.Name, interp.ToString(w), n)}
+				}
+			}
+			for _, l := range []interp.Value{lbl("_Text_0"), lbl("_Text_1"), lbl("_Movement_0")} {
+				if n := countLabelDefs(x.C, res.Out, l); n != 1 {
+					return &Violation{Sub: "verbatim", Msg: fmt.Sprintf("variant %s: label %s defined %d times", vr.Name, interp.ToString(l), n)}
+				}
+			}
+		}
+		return nil
 	}
 	return cs
 }
